@@ -261,8 +261,8 @@ impl Check for C08 {
     }
     fn episodes(&self, tier: Tier) -> u64 {
         match tier {
-            Tier::Quick => 20_000,
-            Tier::Thorough => 1_000_000,
+            Tier::Quick => 300_000,
+            Tier::Thorough => 15_000_000,
         }
     }
 
